@@ -36,6 +36,7 @@ with open(os.path.join(V, 'seeded', 'README.md'), 'w') as f:
         'C02-9': 'exit 2: two-phase erase through a local vector of iterators (same shape as the neutral twin RE2)',
         'C19-11': 'exit 2: as C02-9',
         'C08-10': 'exit 2: as C02-9 (ut_map)',
+        'C08-24': 'exit 2: clear() added to fifo_cache with a hand-written loop over a run-time number of nodes (twin pair UA3)',
         'C11-22': 'exit 2: hinted multimap re-insertion with lower_bound as the hint (tie order among equal counts; twin pair SC1)',
         'C14-26': 'NOT DECIDED: as C14-20, float versus double product (twin pair SC2)',
         'C08-23': 'NOT DECIDED (exit 0): a hand-written move constructor leaves the partition iterator dangling - constructors and special members are outside the per-operation analysis (twin pair TF1, DESIGN 13.4p)',
